@@ -432,7 +432,7 @@ PARTS = [
     Part("enum", None, run_case, 0, 0, quick_shards=8, thorough_shards=16, enumerate_cases=enum_cases,
          essential=("none", "pos_flip_side", "branch_bitflip", "shorten", "lengthen", "side_neutral",
                     "side_neutral_dup", "odd_level_on_path", "via_arg", "via_network", "ntx_1")),
-    Part("gen", gen_case, run_case, 1500, 10000, quick_shards=4, thorough_shards=16,
+    Part("gen", gen_case, run_case, 1500, 30000, quick_shards=4, thorough_shards=16,
          essential=tuple(MUTATIONS) + ("none", "via_arg", "via_network", "odd_level_on_path", "side_neutral",
                                        "side_neutral_dup", "height_out_of_bounds", "hex_case_neutral")),
 ]
